@@ -79,6 +79,92 @@ def bhiksha_stream(ctx, stats):
     return problems
 
 
+def image_stream(ctx, stats, lmq):
+    """the bytes of the search structure of a `trie` / `trie -a` binary file against the extracted layout model
+    (coq/C03/TrieLayout.v, TrieMem.v, TrieImage.v: forest of the loaded trie table -> depth-first build -> bit-packed arrays over the
+    generated routines, offset tables of C03/BhikshaModel.v); when the bytes differ, every n-gram of the model is queried on the
+    written file and compared with the model's answers to look for a behavioural difference"""
+    rng = ctx.rng
+    exe = vlib.ocaml_model("C01")
+    problems = []
+    n = 1 if ctx.replay_model else ctx.pick(10, 150)
+    stats["image_files"] = 0
+    stats["image_bytes"] = 0
+    for mi in range(n):
+        m = ctx.replay_model or lc.gen_model(rng, max_order=ctx.pick(5, 6), max_vocab=rng.choice([6, 12, 12, 20, 30]), hub=(mi % 5 == 3))
+        if len(m.grams) > 700:
+            continue
+        sess = lc.Session(ctx, m, "img%d" % mi)
+        base = {"arpa": m.arpa_bytes().decode("latin-1"), "vocab": m.vocab_bytes().decode("latin-1")}
+        for typ, kd, cfg in (("trie", "T", 0), ("atrie", "A", rng.choice([64, 255, 22])), ("atrie", "A", rng.choice([0, 1, 2, 3, 5, 8]))):
+            binf = os.path.join(sess.dir, "%s.%d.bin" % (typ, cfg))
+            opts = ["bhiksha=%d" % cfg] if kd == "A" else []
+            cmd = [lmq, sess.arpa, typ, sess.vocab, "tmp=" + sess.dir + "/", "write_mmap=" + binf, "include_vocab=0"] + opts
+            rc, out, err = vlib.sh(cmd, input=b"IDS\n", timeout=120)
+            res = out.split("\n")
+            stats["impl_runs"] += 1
+            if not res[0].startswith("loaded") or len(res) < 2:
+                continue
+            ids = [int(x, 16) for x in res[1].split()]
+            if len(ids) < len(m.vocab):
+                continue
+            def mp(w): return ids[w]
+            ls = ["MODEL %d %d %s %s" % (m.order, 1 if m.saw_unk else 0, lc.shex(-100 * lc.UNIT), ",".join(str(b) for b in m.buckets(1.5))), "BOS %x" % mp(m.bos)]
+            for k in m.file_order.get(1, []):
+                g = m.grams[k]
+                ls.append("U %x %s %s %d" % (mp(k[0]), lc.shex(g["prob"]), lc.shex(g["bo"]), 1 if (g["pz"] and g["prob"] == 0) else 0))
+            for o in range(2, m.order + 1):
+                for k in m.file_order.get(o, []):
+                    g = m.grams[k]
+                    ls.append("G %d %s %s %s" % (o, ",".join("%x" % mp(w) for w in k), lc.shex(g["prob"]), lc.shex(g["bo"] if o < m.order else 0)))
+            ls.append("END")
+            ls.append("IMG %s %x" % (kd, cfg))
+            qs = lc.ngram_queries(m)
+            for b, ws in qs:
+                ls.append("S T %d %s" % (b, " ".join("%x" % mp(w) for w in ws)))
+            mo = vlib.run_lines(exe, ls)
+            img = mo[len(ls) - len(qs) - 1]
+            if not img.startswith("walk="):
+                continue                      # the model rejects the file (missing context ...): nothing to lay out
+            chk, _, hx = img.partition(" ")
+            mb = bytes.fromhex(hx)
+            fb = open(binf, "rb").read()
+            stats["image_files"] += 1
+            stats["image_bytes"] += len(mb)
+            rq = dict(base, type=typ, opts=opts + ["include_vocab=0"], stream="trie-image")
+            if chk != "walk=1":
+                problems.append(("model:trie-walk-check", "the walk over the model's own trie memory does not find the entries of the model's table", rq, False))
+            tail = fb[len(fb) - len(mb):] if len(fb) >= len(mb) else b""
+            if tail == mb:
+                continue
+            first = next((i for i in range(len(mb)) if i >= len(tail) or tail[i] != mb[i]), 0)
+            what = ("search structure of the %s file differs from the layout model at byte %d of %d (file %s..., model %s...)"
+                    % (typ, first, len(mb), tail[first:first + 16].hex(), mb[first:first + 16].hex()))
+            # look for a behavioural difference: every n-gram of the model, on the written file
+            r2 = sess.run_impl(lmq, typ, qs, model_file=binf)
+            stats["impl_runs"] += 1
+            bad = None
+            if not r2["head"].startswith("loaded") or len(r2["lines"]) != len(qs):
+                bad = ("the written file does not load / answer: %s" % r2["head"][:100], None)
+            else:
+                for (b, ws), il, ml in zip(qs, r2["lines"], mo[len(ls) - len(qs):]):
+                    try:
+                        pi, pm = lc.parse_line(il, True), lc.parse_line(ml, False)
+                    except Exception:
+                        continue
+                    vi = [(x["fs"], x["ff"]) for x in pi]
+                    vm = [(x["fs"], x["ff"]) for x in pm]
+                    if vi != vm:
+                        bad = ("scores of the written file differ from the model on an n-gram of the model", (b, ws))
+                        break
+            if bad:
+                problems.append(("spec:trie-image:" + typ, what + "; " + bad[0], dict(rq, query=bad[1]), True))
+            else:
+                problems.append(("correspondence:trie-image:" + typ, what, rq, False))
+        shutil.rmtree(sess.dir, ignore_errors=True)
+    return problems
+
+
 def quant_stream(ctx, stats):
     """lm::ngram::SeparatelyQuantize driven directly (SetupMemory, Train, MiddlePointer::Write/Prob/Backoff) against the
     extracted rational model of coq/C03/QuantModel.v.  Back-off bits >= 2 here: one back-off bit is finding F6."""
@@ -391,6 +477,7 @@ def run(ctx):
             break
     bh_problems = bhiksha_stream(ctx, stats)
     bh_problems += quant_stream(ctx, stats)
+    bh_problems += image_stream(ctx, stats, lmq)
     ctx.count("evaluations", stats["scores"])
     ctx.coverage["models"] = nmodels
     ctx.coverage["distinct_nontrivial"] = nontrivial
